@@ -29,3 +29,12 @@ def only_full_diff(line, detail):
 
 def is_abort(line, detail):
     return line.endswith(" -> abort")
+
+def only_touch_bad(line, detail):
+    """C15 setindex tally: the only requirement missed is touch_bad=0 (partial reads confined to the inner chunk whose
+    entry was rewritten returned other data); no panic anywhere, every whole-value read failed"""
+    if " -> sum " not in line:
+        return False
+    impl = _fields(line.split(" -> ", 1)[1]); model = _fields(detail)
+    bad = [k for k in model if k in impl and k not in ("first", "touch_first") and model[k] != impl[k]]
+    return bad == ["touch_bad"] and impl.get("panics") == "0" and impl.get("touch_panics") == "0" and impl.get("full_noterr") == "0"
